@@ -19,7 +19,7 @@ func checkC14(c *Ctx) {
 		"(C14.count) the placeholder/argument count comparison dominates every indexing of the argument list; (C14.tmpl) the template scanner's step table (3 states x {'{','}',other}) is extracted and equals " +
 		"the reference: [kind,start,end) triples, '{' inside a placeholder and '}' outside one are errors, an unterminated placeholder is an error; (C14.directive) the directive machine's accepted language equals " +
 		"[+]?(.D*)?[E%]? on ALL strings (product automaton) and the five documented forms map to the verbs %.6g %.Nf %+.6g %.Nf(x100)% %.NE; a '#' directive on a non-number and an unknown directive are errors; " +
-		"(C14.bound) the precision accumulator is rejected inside the digit loop once it exceeds its bound (no overflow). Also: 长度/字数 count the current text on every call (no remembered count). NOT decided: the digits fmt renders, 分隔/替换 semantics (delegated to package strings)."
+		"(C14.bound) the precision accumulator is rejected inside the digit loop once it exceeds its bound (no overflow). Also: 长度/字数 count the current text on every call (no remembered count). C14.units covers every text method: the Go string is never sliced, indexed or measured by bytes (advancing by the decoder's size excepted). NOT decided: the digits fmt renders, 分隔/替换 semantics (delegated to package strings)."
 	R.Assumptions = []string{"fmt.Sprintf renders %f/%E/%g as documented", "the reference step tables in c14.go transcribe manual ch.6"}
 	u := c.Core()
 	checkTextUnits(c, u)
@@ -503,26 +503,50 @@ func checkTemplateScanner(c *Ctx, u *Universe) {
 
 func checkDirectiveMachine(c *Ctx, u *Universe) {
 	R := c.R
-	fd, p := u.funcDecl("pkg/exec", "parseNumberFormatter")
-	if fd == nil {
+	fd0, p := u.funcDecl("pkg/exec", "parseNumberFormatter")
+	if fd0 == nil {
 		R.lost("C14.directive", "pkg/exec.parseNumberFormatter")
 		return
 	}
 	info := p.TypesInfo
-	pos := u.pos(fd.Pos())
-	body, loop := findMachineLoop(fd)
-	rs, _ := loop.(*ast.RangeStmt)
-	if body == nil || rs == nil {
+	pos := u.pos(fd0.Pos())
+	// the machine is the character loop with a switch, in the function itself or in a helper it calls
+	fd := fd0
+	var body *ast.BlockStmt
+	var chObj types.Object
+	_, loop := findMachineLoop(fd)
+	if loop != nil {
+		body, chObj = elementLoop(info, loop)
+	}
+	if body == nil {
+		ast.Inspect(fd0.Body, func(n ast.Node) bool {
+			call, ok := n.(*ast.CallExpr)
+			if !ok || body != nil {
+				return true
+			}
+			if f := calleeFunc(info, call); f != nil && f.Pkg() == p.Types {
+				if g, _ := u.funcDecl("pkg/exec", f.Name()); g != nil && g != fd0 {
+					if _, l2 := findMachineLoop(g); l2 != nil {
+						if b2, c2 := elementLoop(info, l2); b2 != nil {
+							fd, body, chObj, loop = g, b2, c2, l2
+						}
+					}
+				}
+			}
+			return true
+		})
+	}
+	if body == nil {
 		R.undecided("C14.directive", "pkg/exec.parseNumberFormatter", pos, "directive loop not found")
 		return
 	}
-	chObj := identObj(info, rs.Value)
 	// the machine's variables are whatever the statements before the loop initialise to constants (no names
-	// assumed); variables the loop body assigns from non-constant expressions are accumulators
-	var before, after []ast.Stmt
+	// assumed; fields of a local struct count one by one); variables the loop body assigns from non-constant
+	// expressions are accumulators
+	var before []ast.Stmt
 	for i, st := range fd.Body.List {
 		if st == loop {
-			before, after = fd.Body.List[:i], fd.Body.List[i+1:]
+			before = fd.Body.List[:i]
 		}
 	}
 	pe0 := newPE(u, info, fd)
@@ -531,32 +555,59 @@ func checkDirectiveMachine(c *Ctx, u *Universe) {
 		R.undecided("C14.directive", "pkg/exec.parseNumberFormatter", pos, "statements before the directive loop are not a plain initialisation: "+pe0.failed)
 		return
 	}
-	var vars []types.Object
+	type mvar struct {
+		o types.Object
+		f string
+	}
+	var vars []mvar
 	for o, v := range outs0[0].St.env {
-		if v.K == vInt || v.K == vBool {
-			vars = append(vars, o)
+		switch v.K {
+		case vInt, vBool:
+			vars = append(vars, mvar{o, ""})
+		case vStruct:
+			for f, fv := range v.F {
+				if fv.K == vInt || fv.K == vBool {
+					vars = append(vars, mvar{o, f})
+				}
+			}
 		}
 	}
-	sort.Slice(vars, func(i, j int) bool { return vars[i].Pos() < vars[j].Pos() })
-	accum := map[types.Object]bool{}
+	sort.Slice(vars, func(i, j int) bool {
+		if vars[i].o.Pos() != vars[j].o.Pos() {
+			return vars[i].o.Pos() < vars[j].o.Pos()
+		}
+		return vars[i].f < vars[j].f
+	})
+	lvalVar := func(l ast.Expr) (mvar, bool) {
+		if o := identObj(info, l); o != nil {
+			return mvar{o, ""}, true
+		}
+		if se, ok := ast.Unparen(l).(*ast.SelectorExpr); ok {
+			if o := identObj(info, se.X); o != nil {
+				return mvar{o, se.Sel.Name}, true
+			}
+		}
+		return mvar{}, false
+	}
+	accum := map[mvar]bool{}
 	ast.Inspect(body, func(n ast.Node) bool {
 		if as, ok := n.(*ast.AssignStmt); ok && len(as.Lhs) == len(as.Rhs) {
 			for i, l := range as.Lhs {
-				if o := identObj(info, l); o != nil {
+				if mv, ok := lvalVar(l); ok {
 					if _, isConst := pe0.constOf(as.Rhs[i]); !isConst || as.Tok != token.ASSIGN {
-						accum[o] = true
+						accum[mv] = true
 					}
 				}
 			}
 		}
 		if id, ok := n.(*ast.IncDecStmt); ok {
-			if o := identObj(info, id.X); o != nil {
-				accum[o] = true
+			if mv, ok := lvalVar(id.X); ok {
+				accum[mv] = true
 			}
 		}
 		return true
 	})
-	var accVars []types.Object
+	var accVars []mvar
 	for _, o := range vars {
 		if accum[o] {
 			accVars = append(accVars, o)
@@ -567,17 +618,24 @@ func checkDirectiveMachine(c *Ctx, u *Universe) {
 		return
 	}
 	type cfg string // canonical rendering of the machine variables
-	envOf := func(cf map[types.Object]Val) cfg {
+	envOf := func(cf map[mvar]Val) cfg {
 		var sb strings.Builder
 		for _, o := range vars {
 			fmt.Fprintf(&sb, "%s;", cf[o].String())
 		}
 		return cfg(sb.String())
 	}
-	snapshot := func(st *peState) (map[types.Object]Val, bool) {
-		m := map[types.Object]Val{}
+	read := func(st *peState, mv mvar) Val {
+		v := st.env[mv.o]
+		if mv.f != "" {
+			return v.F[mv.f]
+		}
+		return v
+	}
+	snapshot := func(st *peState) (map[mvar]Val, bool) {
+		m := map[mvar]Val{}
 		for _, o := range vars {
-			v := st.env[o]
+			v := read(st, o)
 			if v.K != vInt && v.K != vBool {
 				return nil, false
 			}
@@ -585,12 +643,25 @@ func checkDirectiveMachine(c *Ctx, u *Universe) {
 		}
 		return m, true
 	}
-	step := func(cf map[types.Object]Val, ch rune) (map[types.Object]Val, string) {
-		pe := newPE(u, info, fd)
-		st := newState()
-		for o, v := range cf {
-			st.env[o] = v
+	load := func(cf map[mvar]Val) *peState {
+		st := outs0[0].St.clone()
+		for mv, v := range cf {
+			if mv.f == "" {
+				st.env[mv.o] = v
+				continue
+			}
+			f := map[string]Val{}
+			for k, fv := range st.env[mv.o].F {
+				f[k] = fv
+			}
+			f[mv.f] = v
+			st.env[mv.o] = Val{K: vStruct, F: f}
 		}
+		return st
+	}
+	step := func(cf map[mvar]Val, ch rune) (map[mvar]Val, string) {
+		pe := newPE(u, info, fd)
+		st := load(cf)
 		st.env[chObj] = intVal(int64(ch))
 		outs := pe.exec(st, body.List)
 		if pe.failed != "" || len(outs) != 1 {
@@ -619,7 +690,7 @@ func checkDirectiveMachine(c *Ctx, u *Universe) {
 		dead bool
 		r    int
 	}
-	envs := map[cfg]map[types.Object]Val{envOf(initial): initial}
+	envs := map[cfg]map[mvar]Val{envOf(initial): initial}
 	start := prod{envOf(initial), false, 0}
 	seen := map[prod]bool{start: true}
 	type item struct {
@@ -675,16 +746,21 @@ func checkDirectiveMachine(c *Ctx, u *Universe) {
 	// verbs of the documented forms: run the machine on the directive, then the statements after the loop;
 	// the rendering call fmt.Sprintf(verb, number) is observed wherever the verb was assembled
 	const marker = "\x00RENDER\x00"
-	run := func(directive string) (verb string, times100 bool, pctSuffix bool, ok bool) {
-		cf := initial
-		for _, ch := range directive {
-			n, res := step(cf, ch)
-			if res != "ok" {
-				return "", false, false, false
+	// the whole function is executed on the directive text (the loop unrolls over the known characters; helpers
+	// the function is split into are entered)
+	var fmtParam types.Object
+	for _, fld := range fd0.Type.Params.List {
+		for _, nm := range fld.Names {
+			if b, ok := info.TypeOf(nm).Underlying().(*types.Basic); ok && b.Info()&types.IsString != 0 && fmtParam == nil {
+				fmtParam = info.Defs[nm]
 			}
-			cf = n
 		}
-		pe := newPE(u, info, fd)
+	}
+	run := func(directive string) (verb string, times100 bool, pctSuffix bool, ok bool) {
+		if fmtParam == nil {
+			return "", false, false, false
+		}
+		pe := newPE(u, info, fd0)
 		pe.oracle = func(pe *PE, st *peState, call *ast.CallExpr, id string) (Val, bool) {
 			if id == "fmt.Sprintf" && len(call.Args) == 2 {
 				f, a := pe.eval(st, call.Args[0]), pe.eval(st, call.Args[1])
@@ -708,10 +784,8 @@ func checkDirectiveMachine(c *Ctx, u *Universe) {
 			return Val{}, false
 		}
 		st := newState()
-		for o, v := range cf {
-			st.env[o] = v
-		}
-		outs := pe.exec(st, after)
+		st.env[fmtParam] = Val{K: vStr, S: directive}
+		outs := pe.exec(st, fd0.Body.List)
 		if pe.failed != "" || len(outs) != 1 || outs[0].Kind != "return" || len(outs[0].RetV) == 0 {
 			return "", false, false, false
 		}
@@ -742,8 +816,8 @@ func checkDirectiveMachine(c *Ctx, u *Universe) {
 	if afterDot, res := step(initial, '.'); res == "ok" && len(accVars) == 1 {
 		fixedState = 1
 		acc := accVars[0]
-		with := func(v int64) map[types.Object]Val {
-			m := map[types.Object]Val{}
+		with := func(v int64) map[mvar]Val {
+			m := map[mvar]Val{}
 			for o, x := range afterDot {
 				m[o] = x
 			}
